@@ -50,3 +50,9 @@ Example wfr_wire :
   fst (model_out (CExp [2;0;0;0;0;0;0;0;0;1;100;0;0] [(2,0)] [(0,[5])] [] [] [])) =
   [0;0;0;0;0;0;0;0;0;0;0;0;0;0;0;0;0;0;0;0;0;5;0;0;5; 0;0;0;0;0;0;0;0;0;0;0;0;0;0;0;0].
 Proof. vm_compute. reflexivity. Qed.
+
+(* the persistent-queue size witness in wire form (replayed by harness/C19/exp_test.go "witness-PQ-size"):
+   three gated Sends, the size gauge reads 2 *)
+Example pq_size_wire :
+  fst (snd (model_out (CExp [2;1;1;0;5;0;0;0;0;0;0;0;0;0] [] [(1,[1;1;1])] [] [] []))) = [2].
+Proof. vm_compute. reflexivity. Qed.
